@@ -56,6 +56,9 @@ pub struct Case {
     /// plain arm: write the statement inside a style rule
     #[serde(default)]
     pub plain_nested: bool,
+    /// compile through rsass' own FsLoader / CargoLoader code running over the simulated file system
+    #[serde(default)]
+    pub via: Via,
 }
 
 fn cand_names(kind: LoadKind, url: &str) -> Vec<String> {
@@ -322,7 +325,23 @@ pub fn judge(case: &Case, stats: &mut Stats) -> (Judgement, Option<Outcome>) {
             fired: vcommon::Counters::default(),
             finds: 0,
             hits: 0,
+            opens: 0,
         }
+    } else if case.via != Via::Stub {
+        let bases = case.bases();
+        let o = run_job_real(&RealJob {
+            fs: &store.fs,
+            bases: &bases,
+            root_rel: "root.scss",
+            fmt: Fmt::default(),
+            plan: &plan,
+            chunk: case.chunk,
+            budget: 2000,
+            via: case.via,
+        });
+        stats.compiled(&o);
+        stats.inc(if case.via == Via::Fs { "probe:judged_through_fsloader_over_simfs" } else { "probe:judged_through_cargoloader_over_simfs" });
+        o
     } else {
         let o = run(Chunking::NONE);
         stats.compiled(&o);
@@ -335,7 +354,15 @@ pub fn judge(case: &Case, stats: &mut Stats) -> (Judgement, Option<Outcome>) {
         u8::from(case.subdir),
         case.url,
         case.nlp,
-        if case.real_fs { "fs" } else { "sim" }
+        if case.real_fs {
+            "fs"
+        } else {
+            match case.via {
+                Via::Stub => "sim",
+                Via::Fs => "fs_over_simfs",
+                Via::Cargo => "cargo_over_simfs",
+            }
+        }
     );
     if let Res::Panic(m) = &o.res {
         return (Judgement::fail("no_panic", base_sig, format!("panic: {m}")), Some(o));
@@ -401,7 +428,7 @@ pub fn judge(case: &Case, stats: &mut Stats) -> (Judgement, Option<Outcome>) {
         } else {
             stats.inc("probe:nothing_found_is_error");
         }
-        if case.chunk.is_benign_noise() && !case.real_fs {
+        if case.chunk.is_benign_noise() && !case.real_fs && case.via == Via::Stub {
             let o2 = run(case.chunk);
             stats.compiled(&o2);
             if o2.res != o.res {
@@ -536,6 +563,7 @@ pub fn case_for(index: u64, tier: Tier, rng: &mut Rng) -> (Case, &'static str) {
                 deep: false,
                 present_dirs: vec![],
                 plain_nested: false,
+                via: Via::Stub,
             },
             "single_location_exhaustive",
         );
@@ -562,6 +590,7 @@ pub fn case_for(index: u64, tier: Tier, rng: &mut Rng) -> (Case, &'static str) {
                 deep: false,
                 present_dirs: vec![],
                 plain_nested: nested,
+                via: Via::Stub,
             },
             "plain_css_arm",
         );
@@ -588,6 +617,7 @@ pub fn case_for(index: u64, tier: Tier, rng: &mut Rng) -> (Case, &'static str) {
                 deep: false,
                 present_dirs: vec![],
                 plain_nested: false,
+                via: Via::Stub,
             },
             "two_locations_use_exhaustive",
         );
@@ -659,6 +689,7 @@ pub fn case_for(index: u64, tier: Tier, rng: &mut Rng) -> (Case, &'static str) {
             chunk: if rng.chance(1, 5) { Chunking::draw(rng) } else { Chunking::NONE },
             real_fs: false,
             dirnames: vec![],
+            via: Via::Stub,
         },
         "several_locations_sampled",
     )
@@ -710,6 +741,23 @@ impl Prop for C04 {
             };
             let (j2, o2) = judge(&c2, stats);
             extra_violations = to_violations(&c2, j2, o2.as_ref());
+        }
+        // the same layout through rsass' own loaders (real FsLoader / CargoLoader code) over the
+        // simulated file system: same oracle, and the result must equal the stub's
+        for via in [Via::Fs, Via::Cargo] {
+            if via == Via::Cargo && index % 3 != 0 {
+                continue;
+            }
+            let mut c3 = case.clone();
+            c3.via = via;
+            let (j3, o3) = judge(&c3, stats);
+            if let (Some(o), Some(o3)) = (&o, &o3) {
+                if o.res != o3.res {
+                    stats.inc("stub_vs_real_loader_code_mismatch");
+                    stats.sample(8, || json!({"stub_vs_real_loader_code_mismatch": true, "index": index, "via": format!("{via:?}"), "sim": o.res.short(), "real_code": o3.res.short()}));
+                }
+            }
+            extra_violations.extend(to_violations(&c3, j3, o3.as_ref()));
         }
         if let Some(o) = &o {
             // distinct = distinct (layout, load statement) configurations with their observed result
@@ -794,9 +842,17 @@ impl Prop for C04 {
                 stats.c.get("xval_mismatch")
             ));
         }
+        if stats.c.get("stub_vs_real_loader_code_mismatch") > 0 {
+            errs.push(format!(
+                "{} layouts gave different results through the SimLoader stub and through rsass' own loader code over the same simulated file system",
+                stats.c.get("stub_vs_real_loader_code_mismatch")
+            ));
+        }
         for p in [
             "probe:stub_validated_against_real",
             "probe:judged_through_real_fsloader",
+            "probe:judged_through_fsloader_over_simfs",
+            "probe:judged_through_cargoloader_over_simfs",
             "probe:import_only_file_won",
             "probe:css_file_won",
             "probe:index_file_won",
